@@ -15,7 +15,14 @@ MANIFEST = {
             'that is not RUNNING becomes RUNNING only through its own refresh job and only when the join verdict on the '
             'rows of that moment is RUNNING (hence, by join_running_iff_*, only after the required number of inbound '
             'tasks completed and routed to it); no trigger, start_task RPC, resume, result or completion check starts '
-            'a join. Ties: stream join = the REAL _get_join_logical_state on generated '
+            'a join. ENGINE COMMANDS INCLUDED (Mistral.Props.C04X over Mistral.Engine.stepX = the engine model with fail / '
+            'succeed / pause / noop commands, the dispatcher sort and the command backlog; every history): '
+            'join_created_once_reachableX (a join task has at most one execution, it is never IDLE and carries its unique '
+            'key - also when its command was saved to the backlog by a `pause` command and restored on resume; that case '
+            'was the genuine defect join-created-idle, repaired by repo_patches/32, regression rjSpec / '
+            'corpus/core/restored_join.json), stepXg_jx (the invariant JX is preserved by every event, for every order '
+            'of sibling commands that only rearranges them), join_starts_only_when_readyX (with commands too, a join that is not RUNNING '
+            'becomes RUNNING only through its own refresh job and only when the join verdict of that moment is RUNNING). Ties: stream join = the REAL _get_join_logical_state on generated '
             'specs with synthetic task rows in sqlite vs the model (state, cardinality, triggered_by, messages); '
             'stream core (engine model incl. Task.defer / _refresh_task_state vs real engine after every event); '
             'engine monitors: one row per join, a join leaves WAITING only when the required number of inbound rows '
@@ -72,7 +79,7 @@ RULE = ('stream join: generated direct-workflow graphs (forks, all/one/N joins, 
         'random/fifo/lifo schedules x operator commands (35% pause [+resume], 12% stop) on the real engine; '
         'non-trivial = >=2 task executions, a failing task or an operator command; '
         'distinct = distinct (definition, target, oracle, policy, schedule seed)')
-LEAN_MODULES = ['Mistral.Props.C04', 'Mistral.Props.C04Rev']
+LEAN_MODULES = ['Mistral.Props.C04', 'Mistral.Props.C04Rev', 'Mistral.Props.C04X']
 TRUSTED = ['translate/states.py (AST read of states.py)',
            'networkx DiGraph.reverse / dfs_postorder_nodes (the node SET they return is compared with the model)',
            'SQLAlchemy/sqlite row listing; task rows are listed in id order when no sort key is given']
